@@ -398,6 +398,9 @@ func (g *Gen) bytesAmount() string {
 	if g.Profile == "extreme" && g.chance(0.5) {
 		return g.bigInt()
 	}
+	if g.chance(0.02) {
+		return []string{"-1", "-1000000000", "-115792089237316195423570985008687907853269984665640564039457584007913129639935"}[g.pick(3)]
+	}
 	switch g.pick(6) {
 	case 0:
 		return "0"
@@ -1028,7 +1031,7 @@ func (g *Gen) Tx(v *view) error {
 		if g.chance(0.03) {
 			hash = append(hash, 1)
 		}
-		amt := []string{"100", "99", "0", "101", "199", "200", "12345678", "115792089237316195423570985008687907853269984665640564039457584007913129639935"}[g.pick(8)]
+		amt := []string{"100", "99", "0", "101", "199", "200", "12345678", "115792089237316195423570985008687907853269984665640564039457584007913129639935", "-100", "18446744073709551616", "18446744073709551715"}[g.pick(11)]
 		if g.Profile == "genesis" && g.chance(0.9) {
 			// a swap below 10000 makes every later export invalid (known finding F4, kept in the corpus):
 			// keep most histories of this profile exportable
